@@ -5,7 +5,7 @@
 set -u
 SCR="$1"; RACE="${2:-}"
 REPO="${VERIF_REPO:-/repo}"
-V=/verif
+V="$(cd "$(dirname "${BASH_SOURCE[0]}")" && pwd)"
 export GOFLAGS=-mod=mod GOPROXY=off GOSUMDB=off GOTOOLCHAIN=local CGO_ENABLED=${CGO_ENABLED:-1}
 mkdir -p "$SCR/cache" || exit 2
 rsync -a --delete --exclude .git --exclude '*_test.go' --exclude examples "$REPO"/ "$SCR/cache"/ || exit 2
@@ -27,6 +27,8 @@ if ! go build $FLAGS -tags $TAGS -o "$SCR/vh" . > "$SCR/build.log" 2>&1; then
   # the optional inspector reads unexported fields; retry without it
   if go build $FLAGS -tags $TAGS,noinspect -o "$SCR/vh" . > "$SCR/build2.log" 2>&1; then
     echo "PREP: inspector unavailable (built with noinspect)"; echo noinspect > "$SCR/noinspect"
+  elif go build $FLAGS -tags $TAGS,noinspect,noxsyncapi -o "$SCR/vh" . > "$SCR/build3.log" 2>&1; then
+    echo "PREP: inspector and xsync diagnostic API unavailable (built with noinspect,noxsyncapi): no table statistics, custom hashers replaced by the default one"; echo noxsyncapi > "$SCR/noinspect"
   else
     echo "PREP: build failed"; cat "$SCR/build.log"; exit 2
   fi
